@@ -13,3 +13,7 @@ import HypnoModel.Model.Topology
 import HypnoModel.Model.Tiling
 import HypnoModel.Drv.C08
 import HypnoModel.Props.C08
+import HypnoModel.Model.Intersect
+import HypnoModel.Drv.C20
+import HypnoModel.Lemmas.Intersect
+import HypnoModel.Props.C20
